@@ -1182,7 +1182,18 @@ func laws(sel int, in, got []int64, law func(lsel int, lin []int64, sig string))
 		law(104, cat([]int64{0}, its, encLayout(x.qt, eTable), o.queue), "")
 		law(106, cat(its, encLayout(x.vt, eTable), encLayout(x.qt, eTable), o.vq), "")
 		if emitMixedIndexLaw {
-			law(114, cat(its, encLayout(x.tt, eTable), o.task), sigMixedIndex)
+			// the signature only where the MECHANISM of the finding is present: pod
+			// names with and without a numeric index in one task set
+			withIdx, without := false, false
+			for _, it := range x.its {
+				withIdx = withIdx || it.pidx != nil
+				without = without || it.pidx == nil
+			}
+			sig := ""
+			if withIdx && without {
+				sig = sigMixedIndex
+			}
+			law(114, cat(its, encLayout(x.tt, eTable), o.task), sig)
 		}
 	case 5:
 		law(105, cat(in, got[1:]), "")
